@@ -22,6 +22,63 @@ func init() {
 
 func runC32(c *eng.Ctx) {
 	P := c.P
+
+	// ORDER-headers: net/http sends the header map at WriteHeader; a header set afterwards is silently dropped. On the
+	// read paths (local, proxied, ranged) Content-Range, Content-Type, Content-Encoding, ETag and Accept-Ranges must
+	// therefore all be in place before the status is written
+	nWH := 0
+	for _, spec := range [][2]string{{"weed/server", "(*VolumeServer).GetOrHeadHandler"}, {"weed/server", "processRangeRequest"}, {"weed/server", "writeResponseContent"}, {"weed/server", "(*FilerServer).GetOrHeadHandler"}} {
+		fn := c.NeedFunc(spec[0], spec[1])
+		if fn == nil {
+			continue
+		}
+		isWH := func(in ssa.Instruction) bool {
+			call, ok := in.(*ssa.Call)
+			return ok && call.Call.IsInvoke() && call.Call.Method.Name() == "WriteHeader" && eng.TypeName(call.Call.Value.Type()) == "ResponseWriter"
+		}
+		setsHeader := func(in ssa.Instruction) bool {
+			call, ok := in.(*ssa.Call)
+			if !ok || !eng.CalleeIs(call, "http.Header).Set", "http.Header).Add", "http.Header).Del") {
+				return false
+			}
+			return eng.Mentions(call.Call.Args[0], 3, func(v ssa.Value) bool {
+				hc, isC := v.(*ssa.Call)
+				return isC && hc.Call.IsInvoke() && hc.Call.Method.Name() == "Header" && eng.TypeName(hc.Call.Value.Type()) == "ResponseWriter"
+			})
+		}
+		for i, in := range eng.Find(fn, isWH) {
+			nWH++
+			hit, path := eng.Search(eng.After(in), setsHeader, eng.SearchOpt{})
+			c.Ob("ORDER-headers", fmt.Sprintf("%s status#%d", eng.FuncName(fn), i), hit == nil, in.Pos(),
+				"no response header is set after the status line was written"+pathNote(P, fn, hit, path))
+		}
+	}
+	if nWH < 3 {
+		c.Undecided("ORDER-headers", "discovery", token.NoPos, fmt.Sprintf("only %d WriteHeader calls found on the read paths (expected >= 3)", nWH))
+	}
+
+	// SIB-announced-size: the Content-Length of a multi-range answer is computed by encoding the part headers once
+	// (rangesMIMESize) and the body is produced by encoding them again while streaming; both encodings must be given the
+	// same content type and total size, or the announced length and the bytes sent differ and the body is cut or padded
+	if pr := c.NeedFunc("weed/server", "processRangeRequest"); pr != nil {
+		nHdr := 0
+		for _, f := range eng.WithAnon(pr) {
+			for i, in := range eng.Find(f, eng.CallTo("weed_server.rangesMIMESize", "server.rangesMIMESize", "weed_server.httpRange).mimeHeader", "server.httpRange).mimeHeader")) {
+				call := in.(ssa.CallInstruction)
+				a, b := 0, 1
+				if eng.CalleeIs(call, "weed_server.rangesMIMESize", "server.rangesMIMESize") {
+					a, b = 1, 2
+				}
+				nHdr++
+				ok := eng.IsParamLike(eng.Unwrap(eng.Arg(call, a)), "mimeType") && eng.IsParamLike(eng.Unwrap(eng.Arg(call, b)), "totalSize")
+				c.Ob("SIB-announced-size", fmt.Sprintf("%s part-header-inputs#%d", eng.FuncName(f), i), ok, in.Pos(),
+					"the part headers are encoded from the caller's content type and total size, for the announced length and for the body alike")
+			}
+		}
+		if nHdr < 2 {
+			c.Undecided("SIB-announced-size", "discovery", pr.Pos(), fmt.Sprintf("only %d part-header encodings found (expected 2)", nHdr))
+		}
+	}
 	fn := c.NeedFunc("weed/server", "processRangeRequest")
 	if fn != nil {
 		isWriteFn := func(in ssa.Instruction) bool {
